@@ -6,6 +6,7 @@
   a multi-byte sequence and is validated by the `ident` stream).
 -/
 import Jmes.Lexer
+import Proofs.Utf8
 namespace Jmes.Lexer
 open Jmes.Utf8
 
@@ -160,11 +161,13 @@ theorem unescapeBacktick_btSpell : ∀ x : Bytes, unescapeBacktick (btSpell x) =
         simp only [unescapeBacktick, hd, and_false, if_false, ih]
 
 /-- Content made of units: a plain ASCII byte other than the delimiter and the
-    backslash, or a backslash followed by any ASCII byte. -/
+    backslash, a backslash followed by any ASCII byte, or a well-formed multi-byte rune. -/
 inductive Units (endc : UInt8) : Bytes → Prop where
   | nil : Units endc []
   | plain (c : UInt8) (rest : Bytes) : c < 0x80 → c ≠ endc → c ≠ 0x5C → Units endc rest → Units endc (c :: rest)
   | esc (d : UInt8) (rest : Bytes) : d < 0x80 → Units endc rest → Units endc (0x5C :: d :: rest)
+  | multi (c : UInt8) (cs : Bytes) : 1 < (decodeRune (c :: cs)).2 → 0x80 ≤ (decodeRune (c :: cs)).1 →
+      Units endc ((c :: cs).drop (decodeRune (c :: cs)).2) → Units endc (c :: cs)
 
 /-- C14 (delimiter scan): on content made of units, `consumeUntil` returns
     exactly the content and leaves what follows the closing delimiter. -/
@@ -200,5 +203,39 @@ theorem consumeUntil_units (endc : UInt8) (he : endc < 0x80) (hne : endc ≠ 0x5
         decodeRune_ascii d _ hd, List.take_succ_cons, List.take_zero]
       rw [ih rest f (by simp at hf; omega)]
       simp
+
+  | multi c cs hw hge _ ih =>
+    intro rest fuel hf
+    cases fuel with
+    | zero => simp at hf
+    | succ f =>
+      have hle := width_le c cs
+      have hdec : decodeRune (c :: cs ++ endc :: rest) = decodeRune (c :: cs) := by
+        have := decode_take c cs ((c :: cs).drop (decodeRune (c :: cs)).2 ++ endc :: rest) hw
+        rw [← List.append_assoc, List.take_append_drop] at this
+        exact this
+      have hen : endc.toNat < 0x80 := by simpa [UInt8.lt_iff_toNat_lt] using he
+      have h1 : ¬ (decodeRune (c :: cs)).1 = endc.toNat := by omega
+      have h2 : ¬ (decodeRune (c :: cs)).1 = 0x5C := by omega
+      have hdrop : (c :: cs ++ endc :: rest).drop (decodeRune (c :: cs)).2 = (c :: cs).drop (decodeRune (c :: cs)).2 ++ endc :: rest :=
+        List.drop_append_of_le_length hle
+      have htake : (c :: cs ++ endc :: rest).take (decodeRune (c :: cs)).2 = (c :: cs).take (decodeRune (c :: cs)).2 :=
+        List.take_append_of_le_length hle
+      have hunf : consumeUntil endc.toNat (f + 1) (c :: cs ++ endc :: rest) =
+          (if (decodeRune (c :: cs ++ endc :: rest)).1 = endc.toNat then some ([], (c :: cs ++ endc :: rest).drop (decodeRune (c :: cs ++ endc :: rest)).2)
+           else if (decodeRune (c :: cs ++ endc :: rest)).1 = 0x5C then
+             match (c :: cs ++ endc :: rest).drop (decodeRune (c :: cs ++ endc :: rest)).2 with
+             | [] => none
+             | s' => (consumeUntil endc.toNat f (s'.drop (decodeRune s').2)).map
+                 (fun (v, r) => ((c :: cs ++ endc :: rest).take (decodeRune (c :: cs ++ endc :: rest)).2 ++ s'.take (decodeRune s').2 ++ v, r))
+           else (consumeUntil endc.toNat f ((c :: cs ++ endc :: rest).drop (decodeRune (c :: cs ++ endc :: rest)).2)).map
+             (fun (v, r) => ((c :: cs ++ endc :: rest).take (decodeRune (c :: cs ++ endc :: rest)).2 ++ v, r))) := by
+        show consumeUntil endc.toNat (f + 1) (c :: (cs ++ endc :: rest)) = _
+        simp only [consumeUntil]
+        rfl
+      rw [hunf, hdec]
+      simp only [h1, h2, if_false, hdrop, htake]
+      rw [ih rest f (by simp only [List.length_drop, List.length_cons] at hf ⊢; omega)]
+      simp only [Option.map, List.take_append_drop]
 
 end Jmes.Lexer
